@@ -24,6 +24,7 @@ _SCAN_RULE = ('stack.ScanSnapshot under a scripted io.Reader (chunk schedule inc
 
 PROPS = {
     'C04': {
+        'extra_props': ['C00_pipeline'],
         'ops': [('aggregate', 1500, 40000)],
         'corr': ['corr:ids', 'corr:panic'],
         'prop': ['C04'],
@@ -33,6 +34,7 @@ PROPS = {
         'assumptions': ['Go sort.Ints / sort.SliceStable are stable sorts (modelled by insertion sort)'],
     },
     'C05': {
+        'extra_props': ['C00_pipeline'],
         'ops': [('aggregate', 1500, 40000)],
         'corr': ['corr:ids', 'corr:panic'],
         'prop': ['C05', 'C06:aggregate'],
@@ -42,6 +44,7 @@ PROPS = {
         'assumptions': ['snapshots are well-formed (wf_goroutines): non-pointers carry no pseudo-name, too-large arguments are not pointers'],
     },
     'C12': {
+        'extra_props': ['C00_pipeline'],
         'ops': [('aggregate', 1500, 40000)],
         'corr': ['corr:sig', 'corr:panic'],
         'prop': ['C12'],
@@ -50,6 +53,7 @@ PROPS = {
         'rule': _AGG_RULE + '; the merged signature of every bucket is compared field by field with the model and checked against its members by the extracted c12_ok',
     },
     'C13': {
+        'extra_props': ['C00_pipeline'],
         'ops': [('aggregate', 1000, 30000), ('less3', 5000, 200000)],
         'corr': ['corr:order', 'corr:less', 'corr:panic'],
         'prop': ['C13'],
@@ -61,7 +65,7 @@ PROPS = {
     },
 
     'C15': {
-        'extra_props': ['C06b'],
+        'extra_props': ['C06b', 'C00_pipeline'],
         'ops': [('names', 1500, 40000)],
         'corr': ['corr:names', 'corr:panic'],
         'prop': ['C15'],
@@ -72,6 +76,7 @@ PROPS = {
                 'scanned with NameArguments on and off; non-trivial = at least one argument named; distinct by input hash',
     },
     'C01': {
+        'extra_props': ['C00_pipeline'],
         'ops': [('scan', 500, 30000, ('-mix', 'c01'))],
         'corr': ['corr:snap', 'corr:err', 'corr:panic', 'corr:rest', 'corr:fwd'],
         'prop': ['C01'],
@@ -104,7 +109,7 @@ PROPS = {
                 'remainder = the rest), the known finding K1 matched narrowly',
     },
     'C03': {
-        'extra_props': ['C02b'],
+        'extra_props': ['C02b', 'C00_pipeline'],
         'ops': [('scan', 1500, 150000, ('-mix', 'c03')), ('scan', 200, 10000, ('-mix', 'c02')), ('scanseq', 60, 3000), ('pp', 30, 2000), ('aggregate', 300, 20000), ('html', 100, 5000), ('scan', 1000, 14424, ('-mix', 'kinds'))],
         'corr': ['corr:panic', 'corr:snap', 'corr:err', 'corr:seq'],
         'prop': ['C03'],
@@ -162,8 +167,9 @@ PROPS = {
                 'model = extracted pp_run (scan, aggregate, render) byte for byte; on the output alone: colour erasure, filter/match split of the blocks, counts add up, equal column widths',
     },
     'C17': {
+        'extra_props': ['C17b'],
         'ops': [('html', 300, 10000)],
-        'corr': ['corr:attrs', 'corr:panic'],
+        'corr': ['corr:attrs', 'corr:html-region', 'corr:panic'],
         'prop': ['C17'],
         'nontrivial': ['attrs='],
         'input_fields': 3,
